@@ -77,7 +77,7 @@ def run_one(sc):
             ql = None if cfg["mode"] == 0 else cfg["qlimit"]
             port = Port(env, rate, ql, cfg["mode"] == 1, elid)
     except BaseException as e:  # noqa
-        return {"cfg": cfg, "incl": 0, "ev": [dict(base, e="X", t=0, type=type(e).__name__)]}
+        return {"cfg": cfg, "incl": 0, "noout": 0, "ev": [dict(base, e="X", t=0, type=type(e).__name__)]}
 
     def state():
         d = {"items": len(port.store.items), "bytes": ex(port.byte_size), "drops": port.packets_dropped,
@@ -97,7 +97,12 @@ def run_one(sc):
             rec.ev.append(dict(base, e="D", t=ex(env.now), id=i, sz=pkt.size, stamp=ex(st), **state()))
             notify[0]()
 
-    port.out = Sink()
+    # "noout": the port is the last element of the path; 1 = out is set to None, 2 = out is never assigned at all.
+    # Departures are then not seen at a tap, only through the counters and the monitor
+    if not sc.get("noout"):
+        port.out = Sink()
+    elif sc["noout"] == 1:
+        port.out = None
 
     def make_packet(i, a):
         draws.cur = (a.get("un", -1), a.get("ud", 1))
@@ -135,7 +140,7 @@ def run_one(sc):
                 e.setdefault(k, v)
     if ok:
         rec.ev.append(dict(base, e="Q", t=ex(env.now), **state()))
-    return {"cfg": cfg, "incl": incl, "ev": rec.ev}
+    return {"cfg": cfg, "incl": incl, "noout": 1 if sc.get("noout") else 0, "ev": rec.ev}
 
 
 if __name__ == "__main__":
